@@ -156,6 +156,36 @@ def deep_limits(h: Harness):
             h.fail(site, "depth-exceeds-limit", f"[python oracle] {gname} grammar: program of depth {res['depth']} under max depth {limit}", [key])
 
 
+def retargeted_depths(h: Harness):
+    """a field re-declared (the documented `Cls.__init__.__annotations__[f] = T` idiom) with a type of ANOTHER minimum depth
+    on classes a first grammar has already used: the second grammar's minimum and its depth filters follow the new
+    declaration"""
+    C = gram.ClassSpec
+    rng = h.rng
+    for new in (("tuple", ("cls", 1), ("cls", 4)), ("cls", 4), ("ann", ("list", ("cls", 4)), ("listSize", 1, 2)), ("union", ("cls", 4), ("cls", 5))):
+        spec = gram.Spec([C("A0", True, None), C("Leaf", False, 0, []), C("Box", False, 0, [("x", ("cls", 1))]),
+                          C("Cell", False, None, [("c", ("cls", 2)), ("k", ("ann", "int", ("intRange", 0, 3)))]),
+                          C("Mid", False, 0, [("y", ("cls", 1))]), C("Far", False, 0, [("z", ("cls", 4))])], 3, [1, 2, 4, 5])
+        b = gram.build(spec)
+        g = b.extract()
+        for kind in ("grow", "full", "pigrow"):   # the first grammar is used (every class's arguments are looked at)
+            synth.create(b, kind, g.get_min_tree_depth() + 1, [rng.randrange(0, 1000) for _ in range(32)])
+        spec.classes[2].fields[0] = ("x", new)
+        pt = gram.py_type(new, b.classes)
+        b.classes[2].__init__.__annotations__["x"] = pt
+        b.classes[2].__annotations__["x"] = pt
+        gram._collect_tymap(new, pt, b.tymap)
+        g = b.extract()
+        mind = g.get_min_tree_depth()
+        line_spec = gram.spec_sx(spec)
+        h.agree("Grammar.get_min_tree_depth", ["min_depth", line_spec], mind)
+        h.count("retargeted-depth-grammars")
+        for d in range(max(0, mind - 2), mind + 3):
+            for kind in ("grow", "full", "pigrow"):
+                one(h, spec, b, g, mind, kind, d, [rng.randrange(0, 1000) for _ in range(128)])
+        dsge_limits(h, spec, b, g, mind, rng)
+
+
 def corpus():
     """fixed grammars whose wrapped field types have members of DIFFERENT minimum depth (a tuple needs its deepest
     component, a union its shallowest, a list its element), under abstract and concrete start symbols, in both
@@ -175,6 +205,7 @@ def corpus():
 def run(h: Harness):
     rng = h.rng
     deep_limits(h)
+    retargeted_depths(h)
     retry_witness(h)
     ngr = h.n(70, 1200)
     shaped = corpus()
